@@ -25,7 +25,7 @@ RULE = (
     "every seed. Scenario classes: (a) 2-D pad of scalars and vector components on face-connected grids (geometric, random "
     "reciprocal, cubed sphere) with widths > 0 on both axes, all rules, corner cells and result dim order included, and the "
     "same call on the same table listed in a permuted insertion order of faces / axes (must be identical within the "
-    "process too); (b) equivalent() on multi-axis signatures and their renamings; (c) list(Grid(ds).axes) and repr for "
+    "process too); (a') Grid(face_connections=...) accept/refuse of consistent and edited (inconsistent) tables under several listing orders; (b) equivalent() on multi-axis signatures and their renamings; (c) list(Grid(ds).axes) and repr for "
     "COMODO / SGRID datasets with 2-4 axes; (d) get_metric / integrate for registries offering several partitions of the "
     "requested axes with numerically different products; (e) a regression slice of the generators of C01, C09, C10 "
     "(multi-axis calls). Axis names are drawn from a pool so that set iteration orders differ between seeds; each "
@@ -68,7 +68,20 @@ def attempt(f):
 
 # ---------------------------------------------------------------------------------------------------
 def gen_case(rng, i, tier):
-    kind = ["pad", "pad", "pad", "equiv", "parse", "metric", "metric", "slice01", "slice09", "slice10"][i % 10]
+    kind = ["pad", "pad", "ctor", "equiv", "parse", "metric", "metric", "slice01", "slice09", "slice10", "pad", "ctor"][i % 12]
+    if kind == "ctor":
+        # accept/reject of a (possibly inconsistent) link table must not depend on the order in which it is listed
+        nf = rng.randint(2, 4)
+        t = linktable.random_reciprocal(rng, nf, drop_empty=0.0)
+        slots = [(f, a, s) for f in t for a in t[f] for s in (0, 1)]
+        edits = []
+        for _ in range(rng.choice([0, 1, 1, 2])):
+            f, a, s = rng.choice(slots)
+            edits.append([f, a, s, rng.choice([None, [rng.randrange(nf), rng.choice("XY"), rng.random() < 0.5]])])
+        tt = {str(f): {a: [None if l is None else list(l) for l in lr] for a, lr in d.items()} for f, d in t.items()}
+        for f, a, s, v in edits:
+            tt[str(f)][a][s] = v
+        return {"kind": "ctor", "table": tt, "nf": nf, "perm_seeds": [rng.getrandbits(16) for _ in range(4)], "n_edits": len(edits)}
     if kind == "pad":
         fam = rng.choice(["geometric", "random", "cubed-sphere"])
         if fam == "geometric":
@@ -198,6 +211,26 @@ def run_scenario(ctx, desc):
                           f"pad differs when the same links are listed in another order: {json.dumps(rec)[:200]} vs {json.dumps(rec2)[:200]}",
                           mechanism=None)
         return rec, ("pad", desc["family"], desc["mode"], sorted(desc["rule"].values()))
+    if kind == "ctor":
+        import xarray as xr
+        from xgcm import Grid
+
+        N, nf = 2, desc["nf"]
+        ds = xr.Dataset(coords={"x": ("x", np.arange(N) + 0.5), "xl": ("xl", np.arange(N) * 1.0), "y": ("y", np.arange(N) + 0.5),
+                                "yl": ("yl", np.arange(N) * 1.0), "face": ("face", np.arange(nf))})
+        cm = {"X": {"center": "x", "left": "xl"}, "Y": {"center": "y", "left": "yl"}}
+        t = {int(f): {a: tuple(None if l is None else (l[0], l[1], bool(l[2])) for l in lr) for a, lr in d.items()} for f, d in desc["table"].items()}
+        outs = []
+        for ps in [None] + desc["perm_seeds"]:
+            tl = t if ps is None else linktable.listed_in_order(t, ps)
+            try:
+                Grid(ds, coords=cm, face_connections={"face": tl}, periodic=False, autoparse_metadata=False)
+                outs.append("accepted")
+            except Exception:
+                outs.append("refused")
+        if len(set(outs)) > 1:
+            ctx.violation("independent-of-table-insertion-order", f"Grid(face_connections=...) gives {outs} for the same links listed in different orders: {desc['table']}")
+        return {"outcome": outs[0]}, ("ctor", desc["n_edits"], outs[0])
     if kind == "equiv":
         from xgcm.grid_ufunc import _GridUFuncSignature as S
 
